@@ -158,7 +158,16 @@ def check_case(case):
 
     def run():
         ex = MultiAgentTrajectoryExporter(domain)
-        tr = ex.parse_plan(problem, action_sequence=lines, allow_inapplicable_actions=bool(second))
+        vf = case.get("via_file")
+        if vf:
+            # the other entry point: the joint plan read from a file, one joint action per line; the entries of a line
+            # enclosed in [...] (as PlanConverter.export_plan writes them) or bare, the last line with or without a
+            # terminator
+            body = [l[1:-1] if vf.get("bare") else l for l in lines]
+            path = write_tmp("\n".join(body) + ("\n" if vf.get("final_newline") else ""), suffix=".plan")
+            tr = ex.parse_plan(problem, plan_path=path, allow_inapplicable_actions=bool(second))
+        else:
+            tr = ex.parse_plan(problem, action_sequence=lines, allow_inapplicable_actions=bool(second))
         text = "".join(ex.export(tr))
         path = write_tmp("", suffix=".trajectory")
         ex.export_to_file(tr, path)
@@ -269,6 +278,9 @@ def gen(ch, tier):
         case["second"] = gen_joint(ch, dom, objects, world, st, prefer_applicable=False)
         if ch.flag(0.25):
             case["second"] = [["nop"] for _ in case["second"]]      # every agent idles for a step
+    side = ch.side("via-file")
+    if side.flag(0.4):
+        case["via_file"] = {"bare": side.flag(0.5), "final_newline": side.flag(0.5)}
     return case
 
 
